@@ -103,19 +103,26 @@ class Material(MaterialFile):
 
         # Filter rows where input string is substring of category_name or name
         dfi = df[
-            df['category_name'].str.lower().str.contains(name) |
-            df['name'].str.lower().str.contains(name)
+            df['category_name'].str.lower().str.contains(name, regex=False) |
+            df['name'].str.lower().str.contains(name, regex=False)
         ].copy()
 
         # If reference given, filter rows non-matching rows
         if self.reference:
             reference = self.reference.lower()
+
+
+            def has_ref(column):
+                # literal match: names contain regex metacharacters
+                return dfi[column].str.lower().str.contains(reference,
+                                                            regex=False)
+
             dfi = dfi[
-                dfi['category_name'].str.lower().str.contains(reference) |
-                dfi['category_name_full'].str.lower().str.contains(reference) |
-                dfi['reference'].str.lower().str.contains(reference) |
-                dfi['name'].str.lower().str.contains(reference) |
-                dfi['filename'].str.lower().str.contains(reference)
+                has_ref('category_name') |
+                has_ref('category_name_full') |
+                has_ref('reference') |
+                has_ref('name') |
+                has_ref('filename')
             ]
 
         # Filter rows based on wavelength range
